@@ -164,6 +164,13 @@ func c02Verbs(w *rt.W, n uint64) {
 	}
 }
 
+func tail(s string, n int) string {
+	if len(s) > n {
+		return s[len(s)-n:]
+	}
+	return s
+}
+
 func hasFourOrNine(n uint64) bool {
 	for r := n % 1000; r > 0; r /= 10 {
 		if d := r % 10; d == 4 || d == 9 {
@@ -254,6 +261,42 @@ func runC02(c *rt.Ctx) {
 			}
 		})
 	}
+	// limit disabled: every thousands count up to 2100 (block-wise writers go wrong at multiples of their
+	// block size) with remainders of every shape, and numbers beyond 2^32 (numerals of several megabytes;
+	// 32-bit shortcuts in the split into thousands and remainder go wrong only there)
+	roman.MaxInputLength = 0
+	c.Parallel("every-thousands-count", 0, func(w *rt.W) {
+		for t := uint64(w.Shard); t <= 2100; t += uint64(w.NShards) {
+			for _, rem := range []uint64{0, 1, 444, 999, uint64(w.Rng.Intn(1000))} {
+				for _, set := range []int{0, 127, 64, 63} {
+					c02Case(w, t*1000+rem, set)
+				}
+			}
+			w.ClassN("thousands-count-under-disabled-limit", 1)
+			w.NT(1)
+		}
+	})
+	c.Require("thousands-count-under-disabled-limit", 2101)
+	c.Parallel("beyond-2^32", 0, func(w *rt.W) {
+		hs := []uint64{4294966999, 4294967000, 4294967295, 4294967296, 4294967999, 4294968999, 4908534998, 4908534999, 4908535999, 5000000000, 5000000999, 6000000444, 8589934999, 8589935000}
+		for i := w.Shard; i < len(hs); i += w.NShards {
+			for _, set := range []int{0, 127} {
+				if !c.Quick() || i%5 == 0 && set == 0 {
+					c02Case(w, hs[i], set) // including the parse back of the multi-megabyte numeral
+					continue
+				}
+				f, rf := romanFlags(set)
+				out, err := roman.DefaultFormatter(nil, roman.Number(hs[i]), f)
+				w.Eval(1)
+				if want := ref.RomanFormat(hs[i], rf); err != nil || string(out) != want {
+					c02Fail(w, "format", hs[i], set, "DefaultFormatter", fmt.Sprintf("%d bytes ending %q err=%v", len(out), tail(string(out), 24), err), fmt.Sprintf("%d bytes ending %q", len(want), tail(want, 24)))
+				}
+			}
+			w.ClassN("number-beyond-2^32", 1)
+			w.NT(1)
+		}
+	})
+	c.Require("number-beyond-2^32", 14)
 	roman.MaxInputLength = oldLimit
 	c.Require("other-input-limit", 100)
 
